@@ -555,6 +555,38 @@ impl CliRejects {
                     }
                 }
             }
+            // the stream fails with a hard I/O error after k bytes (the reader saw a valid prefix)
+            for auto in [false, true] {
+                let plan = ReadPlan { seed: k as u64 ^ case.style_seed, p_eintr: if k % 3 == 0 { 0.2 } else { 0.0 }, error_at: Some(k), eof_at: None, max_chunk: [1usize, 7, 64, 4096][k % 4] };
+                let mut faulty = FaultyRead::new(&valid.bytes, plan);
+                let res = std::panic::catch_unwind(std::panic::AssertUnwindSafe(|| {
+                    if auto {
+                        crate::real_main::verif::auto_from_reader(&mut faulty)
+                    } else if fmt == Format::Json {
+                        crate::real_main::verif::json_from_reader(&mut faulty)
+                    } else {
+                        crate::real_main::verif::gambit_from_reader(&mut faulty)
+                    }
+                }));
+                m.add("fault_read_error_in_process", faulty.stats.hard_errors.min(1));
+                m.add("fault_read_eintr_in_process", faulty.stats.eintr);
+                match res {
+                    Ok(_) => {
+                        return Err(viol(
+                            "cli-accepted-invalid",
+                            "read-error",
+                            format!("the {} reader returned a game although its input stream failed with an I/O error after {k} of {len} bytes", if auto { "auto" } else { fmt.name() }),
+                        ))
+                    }
+                    Err(e) => {
+                        let msg = e.downcast_ref::<String>().cloned().or_else(|| e.downcast_ref::<&str>().map(|s| s.to_string())).unwrap_or_default();
+                        if documented(&msg).is_none() {
+                            return Err(viol("cli-undocumented-diagnostic", "read-error", format!("I/O error after {k} bytes: reader failed with {:?}", msg.chars().take(160).collect::<String>())));
+                        }
+                        h.u64(msg.len() as u64);
+                    }
+                }
+            }
             k += stride;
         }
         Ok(())
